@@ -1346,6 +1346,379 @@ def run_container_constraints(rep, rng, thorough):
                     rep.oracle_failures.append(bad)
 
 
+# ----------------------------------------------------------------------------- element-wise vector / matrix constraints
+
+EW_VEC_LHS = ["x", "x[1:4]", "x[::-1]", "x[::2]", "x[1:4][::-1]", "2*x+1", "-x", "x-y", "1-x", "x/2", "M[1,:]", "M[:,0]",
+              "M.T[0,:]", "Q[1,1:4]", "Q.T[:,0]", "S[:,1]", "S[2,:]", "S.T[0,:]", "2*S[:,0]-1", "S.diagonal()", "A@x"]
+EW_MAT_LHS = ["M", "M.T", "Q", "Q.T", "M[0:2,1:3]", "Q.T[1:3,0:2]", "Q[0:1,:]", "Q[:,0:1]", "S", "S.T", "S.T.T", "S[0:2,0:2]",
+              "S[0:2,1:3]", "S.T[1:3,0:3]", "2*S", "S*0.5+1", "-S", "S/2", "S+M", "M-S", "S-C", "C-S", "(2*S).T", "M+M.T",
+              "M.T-C"]
+EW_LHS = EW_VEC_LHS + EW_MAT_LHS
+EW_RHS = ["float", "int", "array", "array-sym", "array-int", "array-strided", "list", "var", "var-view", "var-sym", "var-pinned",
+          "expr", "expr-sym", "expr-scaled"]
+EW_SENSES = ["<=", ">=", "=="]
+_EW_BOX = 20.0
+
+
+def _ew_objects(k):
+    """the containers of one model: x, y (length k+1); M (k×k), N ((k+1)×(k+1)), Q (k×(k+1)); S, T symmetric k×k"""
+    from optyx import MatrixVariable, VectorVariable
+
+    n, lo, hi = k + 1, -_EW_BOX, _EW_BOX
+    return {"x": VectorVariable("x", n, lb=lo, ub=hi), "y": VectorVariable("y", n, lb=lo, ub=hi),
+            "M": MatrixVariable("M", k, k, lb=lo, ub=hi), "N": MatrixVariable("N", n, n, lb=lo, ub=hi),
+            "Q": MatrixVariable("Q", k, n, lb=lo, ub=hi), "S": MatrixVariable("S", k, k, lb=lo, ub=hi, symmetric=True),
+            "T": MatrixVariable("T", k, k, lb=lo, ub=hi, symmetric=True),
+            "p": VectorVariable("p", n, lb=lo, ub=hi), "P": MatrixVariable("P", n, n, lb=lo, ub=hi)}
+
+
+def _ew_arrays(values, k):
+    """the returned point as NumPy arrays, read from the values dict BY ELEMENT NAME (a symmetric matrix stores one
+    variable per unordered pair, named after the upper-triangle cell); NaN where the model has no such variable"""
+    n = k + 1
+    g = lambda name: float(values.get(name, np.nan))  # noqa: E731
+    vec = lambda b, m: np.array([g(f"{b}[{i}]") for i in range(m)])  # noqa: E731
+    mat = lambda b, r, c: np.array([[g(f"{b}[{i},{j}]") for j in range(c)] for i in range(r)])  # noqa: E731
+    sym = lambda b, r: np.array([[g(f"{b}[{min(i, j)},{max(i, j)}]") for j in range(r)] for i in range(r)])  # noqa: E731
+    return {"x": vec("x", n), "y": vec("y", n), "p": vec("p", n), "M": mat("M", k, k), "N": mat("N", n, n), "P": mat("P", n, n),
+            "Q": mat("Q", k, n), "S": sym("S", k), "T": sym("T", k)}
+
+
+def _ew_lhs(form, o, C, A):
+    """(the object the API builds, the same recipe in NumPy on the arrays of _ew_arrays)"""
+    x, y, M, Q, S = o["x"], o["y"], o["M"], o["Q"], o["S"]
+    forms = {
+        "x": (lambda: x, lambda B: B["x"]),
+        "x[1:4]": (lambda: x[1:4], lambda B: B["x"][1:4]),
+        "x[::-1]": (lambda: x[::-1], lambda B: B["x"][::-1]),
+        "x[::2]": (lambda: x[::2], lambda B: B["x"][::2]),
+        "x[1:4][::-1]": (lambda: x[1:4][::-1], lambda B: B["x"][1:4][::-1]),
+        "2*x+1": (lambda: 2 * x + 1, lambda B: 2 * B["x"] + 1),
+        "-x": (lambda: -x, lambda B: -B["x"]),
+        "x-y": (lambda: x - y, lambda B: B["x"] - B["y"]),
+        "1-x": (lambda: 1 - x, lambda B: 1 - B["x"]),
+        "x/2": (lambda: x / 2, lambda B: B["x"] / 2),
+        "M[1,:]": (lambda: M[1, :], lambda B: B["M"][1, :]),
+        "M[:,0]": (lambda: M[:, 0], lambda B: B["M"][:, 0]),
+        "M.T[0,:]": (lambda: M.T[0, :], lambda B: B["M"].T[0, :]),
+        "Q[1,1:4]": (lambda: Q[1, 1:4], lambda B: B["Q"][1, 1:4]),
+        "Q.T[:,0]": (lambda: Q.T[:, 0], lambda B: B["Q"].T[:, 0]),
+        "S[:,1]": (lambda: S[:, 1], lambda B: B["S"][:, 1]),
+        "S[2,:]": (lambda: S[2, :], lambda B: B["S"][2, :]),
+        "S.T[0,:]": (lambda: S.T[0, :], lambda B: B["S"].T[0, :]),
+        "2*S[:,0]-1": (lambda: 2 * S[:, 0] - 1, lambda B: 2 * B["S"][:, 0] - 1),
+        "S.diagonal()": (lambda: S.diagonal(), lambda B: np.diagonal(B["S"])),
+        "A@x": (lambda: A @ x, lambda B: A @ B["x"]),
+        "M": (lambda: M, lambda B: B["M"]),
+        "M.T": (lambda: M.T, lambda B: B["M"].T),
+        "Q": (lambda: Q, lambda B: B["Q"]),
+        "Q.T": (lambda: Q.T, lambda B: B["Q"].T),
+        "M[0:2,1:3]": (lambda: M[0:2, 1:3], lambda B: B["M"][0:2, 1:3]),
+        "Q.T[1:3,0:2]": (lambda: Q.T[1:3, 0:2], lambda B: B["Q"].T[1:3, 0:2]),
+        "Q[0:1,:]": (lambda: Q[0:1, :], lambda B: B["Q"][0:1, :]),
+        "Q[:,0:1]": (lambda: Q[:, 0:1], lambda B: B["Q"][:, 0:1]),
+        "S": (lambda: S, lambda B: B["S"]),
+        "S.T": (lambda: S.T, lambda B: B["S"].T),
+        "S.T.T": (lambda: S.T.T, lambda B: B["S"].T.T),
+        "S[0:2,0:2]": (lambda: S[0:2, 0:2], lambda B: B["S"][0:2, 0:2]),
+        "S[0:2,1:3]": (lambda: S[0:2, 1:3], lambda B: B["S"][0:2, 1:3]),
+        "S.T[1:3,0:3]": (lambda: S.T[1:3, 0:3], lambda B: B["S"].T[1:3, 0:3]),
+        "2*S": (lambda: 2 * S, lambda B: 2 * B["S"]),
+        "S*0.5+1": (lambda: S * 0.5 + 1, lambda B: B["S"] * 0.5 + 1),
+        "-S": (lambda: -S, lambda B: -B["S"]),
+        "S/2": (lambda: S / 2, lambda B: B["S"] / 2),
+        "S+M": (lambda: S + M, lambda B: B["S"] + B["M"]),
+        "M-S": (lambda: M - S, lambda B: B["M"] - B["S"]),
+        "S-C": (lambda: S - C, lambda B: B["S"] - C),
+        "C-S": (lambda: C - S, lambda B: C - B["S"]),
+        "(2*S).T": (lambda: (2 * S).T, lambda B: (2 * B["S"]).T),
+        "M+M.T": (lambda: M + M.T, lambda B: B["M"] + B["M"].T),
+        "M.T-C": (lambda: M.T - C, lambda B: B["M"].T - C),
+    }
+    build, num = forms[form]
+    return build(), num
+
+
+def _ew_rhs(kind, shape, o, nums, keep, pin_width=0.0):
+    """right-hand side of the given shape: (the object handed to the API, NumPy recipe on the arrays, (container, pins) or None)
+    -- scalars, arrays (non-symmetric, symmetric, integer dtype, strided views), lists, variable containers (plain, views,
+    symmetric, pinned by lb = ub to a NON-symmetric target -- for the NLP solvers by a box of width 0.5: trust-constr, also
+    as SLSQP's automatic retry, needs minutes on lb = ub -- the recipe reads the pinned container's VALUES anyway) and
+    expressions of them"""
+    y, N, T, p, P = o["y"], o["N"], o["T"], o["p"], o["P"]
+    vecq = len(shape) == 1
+    m = shape[0]
+    r, c = (shape[0], shape[1]) if not vecq else (None, None)
+    size = m if vecq else r * c
+    R = np.array(nums[:size], dtype=float).reshape(shape)
+    K = np.array(nums[size:2 * size] if len(nums) >= 2 * size else nums[::-1][:size], dtype=float).reshape(shape)
+    square = not vecq and r == c
+    if kind == "float":
+        return float(nums[0]), (lambda B: float(nums[0]))
+    if kind == "int":
+        return int(round(nums[0])), (lambda B: float(int(round(nums[0]))))
+    if kind == "array":
+        keep.append((R, R.copy()))
+        return R, (lambda B: R.copy())
+    if kind == "array-sym":
+        Rs = (R + R.T) / 2 if square else R[::-1].copy()
+        keep.append((Rs, Rs.copy()))
+        return Rs, (lambda B: Rs.copy())
+    if kind == "array-int":
+        Ri = np.rint(R).astype(np.int64)
+        keep.append((Ri, Ri.copy()))
+        return Ri, (lambda B: Ri.astype(float))
+    if kind == "array-strided":
+        # the same numbers behind a non-contiguous view: a transposed (Fortran-ordered) matrix, every other cell of a vector
+        if vecq:
+            big = np.zeros(2 * m)
+            big[::2] = R
+            Rv = big[::2]
+        else:
+            Rv = np.ascontiguousarray(R.T).T
+        keep.append((Rv, Rv.copy()))
+        return Rv, (lambda B: np.array(R))
+    if kind == "list":
+        return R.tolist(), (lambda B: R.copy())
+    if kind == "var":
+        return (y[0:m], (lambda B: B["y"][0:m])) if vecq else (N[0:r, 0:c], (lambda B: B["N"][0:r, 0:c]))
+    if kind == "var-view":
+        if vecq:
+            return y[::-1][0:m], (lambda B: B["y"][::-1][0:m])
+        return N.T[0:r, 0:c], (lambda B: B["N"].T[0:r, 0:c])
+    if kind == "var-sym":
+        if vecq:
+            return T[0:m, 1] if m <= T.rows else y[0:m], (lambda B: B["T"][0:m, 1] if m <= T.rows else B["y"][0:m])
+        if (r, c) == T.shape:
+            return T, (lambda B: B["T"])
+        if r <= T.rows and c <= T.cols:
+            return T[0:r, 0:c], (lambda B: B["T"][0:r, 0:c])
+        return N[0:r, 0:c], (lambda B: B["N"][0:r, 0:c])
+    if kind == "var-pinned":
+        if vecq:
+            for i in range(m):
+                p[i].lb, p[i].ub = float(R[i]), float(R[i]) + pin_width
+            return p[0:m], (lambda B: B["p"][0:m])
+        for i in range(r):
+            for j in range(c):
+                P[i, j].lb, P[i, j].ub = float(R[i, j]), float(R[i, j]) + pin_width
+        return P[0:r, 0:c], (lambda B: B["P"][0:r, 0:c])
+    if kind == "expr":
+        keep.append((K, K.copy()))
+        return (y[0:m] + K, (lambda B: B["y"][0:m] + K)) if vecq else (N[0:r, 0:c] + K, (lambda B: B["N"][0:r, 0:c] + K))
+    if kind == "expr-sym":
+        # a symmetric container plus a NON-symmetric constant array
+        keep.append((K, K.copy()))
+        if vecq and m <= T.rows:
+            return T[0:m, 0] + K, (lambda B: B["T"][0:m, 0] + K)
+        if not vecq and r <= T.rows and c <= T.cols:
+            Tv = T if (r, c) == T.shape else T[0:r, 0:c]
+            return Tv + K, (lambda B: B["T"][0:r, 0:c] + K)
+        return (y[0:m] - K, (lambda B: B["y"][0:m] - K)) if vecq else (K - N[0:r, 0:c], (lambda B: K - B["N"][0:r, 0:c]))
+    if kind == "expr-scaled":
+        return (0.5 * y[0:m] - 1, (lambda B: 0.5 * B["y"][0:m] - 1)) if vecq else \
+            (0.5 * N.T[0:r, 0:c] - 1, (lambda B: 0.5 * B["N"].T[0:r, 0:c] - 1))
+    raise KeyError(kind)
+
+
+def _ew_cells(obj, shape):
+    if len(shape) == 1:
+        return [obj[i] for i in range(shape[0])]
+    return [obj[i, j] for i in range(shape[0]) for j in range(shape[1])]
+
+
+def elementwise_case(data):
+    """ONE element-wise constraint `L sense R` between vector-like / matrix-like operands (plus, optionally, the opposite
+    sense at distance `band`: a corridor that can be empty), an objective that pushes every cell of L - R against the
+    constraint.  Returns the problem and the recipe `values -> [(L - R as a NumPy array, sense), ...]` evaluated on the
+    USER'S arrays: a constraint the library failed to create is in the recipe although it is not in prob.constraints."""
+    from optyx import Problem
+
+    k = data["k"]
+    o = _ew_objects(k)
+    nums = list(data["nums"])
+    C = np.array(data["C"], dtype=float).reshape(k, k)
+    A = np.array(data["A"], dtype=float).reshape(k, k + 1)
+    keep = [(C, C.copy()), (A, A.copy())]
+    L, lnum = _ew_lhs(data["lhs"], o, C, A)
+    shape = np.shape(lnum(_ew_arrays({}, k)))
+    Robj, rnum = _ew_rhs(data["rhs"], shape, o, nums, keep, pin_width=0.5 if data["nonlinear"] else 0.0)
+    sense = data["sense"]
+    cons = [L <= Robj if sense == "<=" else L >= Robj if sense == ">=" else L.eq(Robj)]
+    recipe = [(lambda B: lnum(B) - rnum(B), sense)]
+    band = data.get("band")
+    if band is not None and sense != "==":
+        if isinstance(Robj, list):
+            Rb = [v - band for v in Robj] if sense == "<=" else [v + band for v in Robj]
+        else:
+            Rb = Robj - band if sense == "<=" else Robj + band
+        cons.append(L >= Rb if sense == "<=" else L <= Rb)
+        recipe.append(((lambda B: lnum(B) - (rnum(B) - band)), ">=") if sense == "<="
+                      else ((lambda B: lnum(B) - (rnum(B) + band)), "<="))
+    # the objective: built cell by cell through the element access of the operands
+    lc = _ew_cells(L, shape)
+    rc = _ew_cells(Robj, shape) if not isinstance(Robj, (int, float, list, np.ndarray)) else None
+    w = list(data["w"])
+    lin, quad = 0.0, 0.0
+    for q, cell in enumerate(lc):
+        wq = w[q % len(w)] * (1.0 if sense != "==" or q % 2 else -1.0)
+        lin = lin + wq * cell
+        quad = quad + 0.05 * cell ** 2
+        if rc is not None:
+            lin = lin - wq * rc[q]
+            quad = quad + 0.05 * rc[q] ** 2
+    P = Problem()
+    if sense == "<=":
+        P.maximize(lin - quad if data["nonlinear"] else lin)
+    else:
+        P.minimize(lin + quad if data["nonlinear"] else lin)
+    for cgroup in cons:
+        P.subject_to(cgroup)
+    return P, recipe, keep, o
+
+
+def elementwise_feasible_by_hand(data):
+    """a fresh model of the same corridor, independent of optyx's constraint objects: every residual of the recipe is an
+    affine function of the values, so probing it at 0 and at the unit points gives the rows G v + g0 (sense) 0; SciPy's
+    linprog then decides feasibility inside the declared boxes / pins.  Used for SCHEDULING only (NLP solvers need
+    seconds to minutes to give up on an empty corridor), never as a verdict."""
+    from scipy.optimize import linprog
+
+    try:
+        _, recipe, _, o = elementwise_case(data)
+    except Exception:  # noqa: BLE001
+        return False
+    k = data["k"]
+    bounds = {}
+    for cont in o.values():
+        cells = [cont[i] for i in range(len(cont))] if not hasattr(cont, "rows") else \
+            [cont[i, j] for i in range(cont.rows) for j in range(cont.cols)]
+        for v in cells:
+            bounds[v.name] = (v.lb, v.ub)
+    names = sorted(bounds)
+    col = {nm: c for c, nm in enumerate(names)}
+    zero = {key: np.zeros_like(arr) for key, arr in _ew_arrays({}, k).items()}
+    probes = []     # (column, container, cells that hold this variable): a symmetric matrix holds it in two cells
+    for key, arr in zero.items():
+        for idx in np.ndindex(arr.shape):
+            if key in ("S", "T"):
+                if idx[0] <= idx[1]:
+                    probes.append((col[f"{key}[{idx[0]},{idx[1]}]"], key, [idx, idx[::-1]]))
+            else:
+                probes.append((col[f"{key}[{','.join(str(t) for t in idx)}]"], key, [idx]))
+    ub_rows, ub_rhs, eq_rows, eq_rhs = [], [], [], []
+    for resid, sense in recipe:
+        g0 = np.asarray(resid(zero), dtype=float).ravel()
+        G = np.zeros((g0.size, len(names)))
+        for c, key, cells in probes:
+            pt = dict(zero)
+            pt[key] = zero[key].copy()
+            for idx in cells:
+                pt[key][idx] = 1.0
+            G[:, c] = np.asarray(resid(pt), dtype=float).ravel() - g0
+        if sense == "==":
+            eq_rows.append(G), eq_rhs.append(-g0)
+        else:
+            sg = 1.0 if sense == "<=" else -1.0
+            ub_rows.append(sg * G), ub_rhs.append(-sg * g0)
+    res = linprog(np.zeros(len(names)), A_ub=np.vstack(ub_rows) if ub_rows else None,
+                  b_ub=np.concatenate(ub_rhs) if ub_rhs else None, A_eq=np.vstack(eq_rows) if eq_rows else None,
+                  b_eq=np.concatenate(eq_rhs) if eq_rhs else None, bounds=[bounds[nm] for nm in names], method="highs")
+    return res.status == 0
+
+
+def elementwise_check(data):
+    try:
+        P, recipe, keep, _ = elementwise_case(data)
+        k = data["k"]
+    except Exception as e:  # noqa: BLE001
+        return None, "unbuildable:" + type(e).__name__
+    with warnings.catch_warnings(), np.errstate(all="ignore"):
+        warnings.simplefilter("ignore")
+        try:
+            sol = P.solve(method=data["method"])
+        except Exception as e:  # noqa: BLE001
+            return None, "raise:" + type(e).__name__
+    for arr, copy in keep:
+        if not np.array_equal(arr, copy):
+            return {"what": "a user-supplied array was modified by building / solving the model"}, sol.status.name
+    if sol.status.name != "OPTIMAL":
+        return None, sol.status.name
+    B = _ew_arrays(sol.values, k)
+    for idx, (resid, sense) in enumerate(recipe):
+        g = np.asarray(resid(B), dtype=float)
+        viol = np.maximum(0.0, g) if sense == "<=" else np.maximum(0.0, -g) if sense == ">=" else np.abs(g)
+        allowed = 1e-6 + RTOL * np.maximum(1.0, np.abs(g)) + 1e-7
+        if not np.all(viol <= allowed):     # NaN (a variable without a value) fails too
+            worst = np.unravel_index(int(np.nanargmax(np.where(np.isnan(viol), np.inf, viol))), viol.shape)
+            return {"what": f"element-wise constraint `{data['lhs']} {sense} {data['rhs']}`"
+                            f"{' (corridor side)' if idx else ''} violated at the returned point: cell {tuple(int(t) for t in worst)} "
+                            f"has L - R = {float(g[worst])!r} (NumPy on the user's arrays and the values read by element name; "
+                            f"k={k}, method={data['method']!r}, {'strictly convex' if data['nonlinear'] else 'linear'} objective, "
+                            f"corridor={data.get('band')!r})",
+                    "L_minus_R": g.tolist(), "values": dict(sol.values)}, "OPTIMAL"
+    bad = feasibility_report(P, sol.values, None, slack=1e-7)
+    if bad is not None:
+        bad["values"] = dict(sol.values)
+    return bad, "OPTIMAL"
+
+
+_EW_NUMS = [-3.0, -2.5, -2.0, -1.5, -1.0, -0.5, 0.0, 0.5, 1.0, 1.5, 2.0, 2.5, 3.0, 3.5, 4.0, 4.5, 5.0]
+
+
+def elementwise_data(rng, lhs, rhs, sense, method, nonlinear, band):
+    k = rng.choice([3, 3, 4])
+    return {"lhs": lhs, "rhs": rhs, "sense": sense, "method": method, "nonlinear": nonlinear, "band": band, "k": k,
+            "nums": [rng.choice(_EW_NUMS) for _ in range(2 * (k + 1) * (k + 1))],
+            "w": [rng.choice([1.0, 2.0, 3.0]) for _ in range(7)],
+            "C": [rng.choice(_EW_NUMS) for _ in range(k * k)],
+            "A": [rng.choice([1.0, -1.0, 0.0, 2.0, 0.5]) for _ in range(k * (k + 1))]}
+
+
+_EW_NUMERIC_RHS = ("float", "int", "array", "array-sym", "array-int", "array-strided", "list")
+
+
+def run_elementwise_constraints(rep, rng, thorough):
+    """every left operand kind × every right-hand-side kind (the whole grid in every run); sense, method, corridor and
+    sizes rotate / are drawn from the rng.  LP route (auto + explicit linprog methods) and NLP route (auto / SLSQP with a
+    strictly convex objective on every sixth cell of the grid (thorough: every cell); trust-constr -- 0.5 s per solve, and seconds when it runs
+    to its iteration limit on models with free or pinned right-hand-side variables -- on a few cells with a numeric
+    right-hand side)."""
+    lp_methods = ["auto"] + LP_METHODS
+    off = rng.randint(0, 59)
+    i = 0
+    for a, lhs in enumerate(EW_LHS):
+        for b, rhs in enumerate(EW_RHS):
+            senses = EW_SENSES if thorough else [EW_SENSES[(a + b + rng.randint(0, 2)) % 3]]
+            for sense in senses:
+                i += 1
+                band = [None, 10.0, 0.25, None][(i + rng.randint(0, 1)) % 4] if sense != "==" else None
+                runs = [(lp_methods[(i + rng.randint(0, 4)) % 5], False)]
+                if thorough:
+                    runs += [(mth, False) for mth in lp_methods if mth != runs[0][0]]
+                if thorough or (i + off) % 6 == 0:
+                    runs.append((("auto", "SLSQP")[rng.randint(0, 1)], True))
+                if rhs in _EW_NUMERIC_RHS and (i + off) % (20 if thorough else 60) == 0:
+                    runs.append(("trust-constr", True))
+                for method, nonlinear in runs:
+                    data = elementwise_data(rng, lhs, rhs, sense, method, nonlinear, band)
+                    if nonlinear and not elementwise_feasible_by_hand(data):
+                        data["band"] = None if sense != "==" else data["band"]   # open the corridor; else leave it to the LP route
+                        if sense == "==" or not elementwise_feasible_by_hand(data):
+                            rep.histogram["elementwise:nlp-skipped-empty-corridor"] = \
+                                rep.histogram.get("elementwise:nlp-skipped-empty-corridor", 0) + 1
+                            continue
+                    bad, status = elementwise_check(data)
+                    rep.evaluations += 1
+                    tag = f"elementwise:{'mat' if lhs in EW_MAT_LHS else 'vec'}:{rhs}:{status}"
+                    rep.histogram[tag] = rep.histogram.get(tag, 0) + 1
+                    if status == "OPTIMAL":
+                        rep.nontrivial.add(hash(("ew", str(data))))
+                    if bad is not None:
+                        bad.update({"kind_of_case": "elementwise", "data": data})
+                        rep.oracle_failures.append(bad)
+
+
 # ----------------------------------------------------------------------------- overlapping terms
 
 OVERLAP_FORMS = ["x[0]+a@x", "a@x+x[0]", "a@x+b@x", "x.sum()+a@x", "a@x+x.sum()", "2*x[1]-a@x", "a@x-2*x[1]", "s+a@x+s",
@@ -2106,7 +2479,8 @@ def run(ctx) -> core.Report:
     rep = core.Report(rule="exhaustive stub-result table (shape × method × tol × point class × success × message "
                            "class, retry record exhaustive where the retry is possible) through the real "
                            "solve / solve_scipy vs the Lean model, LP stub table (success × status × x/fun present), "
-                           "+ real solves of generated feasible / infeasible problems; non-trivial = distinct rows "
+                           "+ real solves of generated feasible / infeasible problems (scalar polynomial specs, container-level and "
+                           "ELEMENT-WISE vector / matrix constraints judged by NumPy on the user's arrays); non-trivial = distinct rows "
                            "ending OPTIMAL / INFEASIBLE / in a retry, and real solves ending OPTIMAL")
     check_consts(rep)
     metas = run_stub_table(rep, rng, thorough)
@@ -2122,6 +2496,7 @@ def run(ctx) -> core.Report:
     run_operator_alphabet(rep, rng, thorough)
     run_magnitudes_types(rep, rng, thorough)
     run_container_constraints(rep, rng, thorough)
+    run_elementwise_constraints(rep, rng, thorough)
     run_overlapping_terms(rep, rng, thorough)
     run_deep_nlp(rep, rng, thorough)
     run_feasibility_histories(rep, rng, thorough)
@@ -2173,6 +2548,9 @@ def search(ctx, rep):
     run_overlapping_terms(r2, rng, False)
     if r2.oracle_failures:
         return r2.oracle_failures[0]
+    run_elementwise_constraints(r2, rng, False)
+    if r2.oracle_failures:
+        return r2.oracle_failures[0]
     run_deep_nlp(r2, rng, False)
     if r2.oracle_failures:
         return r2.oracle_failures[0]
@@ -2210,9 +2588,9 @@ def replay(payload) -> bool:
         bad, k, k_opt = param_history(f["data"])
         print("solves:", k, "optimal:", k_opt, bad)
         return bad is None
-    if f.get("kind_of_case") in ("magnitude", "container", "fhistory", "overlap", "deep"):
+    if f.get("kind_of_case") in ("magnitude", "container", "fhistory", "overlap", "deep", "elementwise"):
         fn = {"magnitude": magnitude_case, "container": container_check, "fhistory": feasibility_history,
-              "overlap": overlap_check, "deep": deep_check}[f["kind_of_case"]]
+              "overlap": overlap_check, "deep": deep_check, "elementwise": elementwise_check}[f["kind_of_case"]]
         bad, status = fn(f["data"])
         print(status, bad)
         return bad is None
